@@ -16,7 +16,8 @@ DRIVER = "local"
 COQ_TARGETS = ["Properties/C10.vo"]
 THEOREMS = ["C10_local_chain_ok", "C10_authoritative_only_chain_ok", "C10_referral_only_direct_local",
             "C10_zones_typed_answers_ok", "C10_recursion_shape", "C10_stack_never_repeats", "C10_fuel_suffices",
-            "C10_loops_end_local", "C10_loops_end_top_local"]
+            "C10_loops_end_local", "C10_loops_end_top_local",
+            "C10_recursive_chain_ok", "C10_forwarding_chain_ok", "C10_partial_only_for_any", "C10_local_alias_chain", "C10_simple_cache_ok", "C10_recursive_owner_twice"]
 RULE = ("local stream: case = zones + cache contents + questions, a third of them alias graphs (chains of 0..40 links spread over an "
         "authoritative zone, a non-authoritative zone and the cache; ending in data, nothing, a cycle or a self-loop); "
         "non-trivial = distinct case line in which at least one question of a type other than CNAME/ANY is answered with "
@@ -114,8 +115,8 @@ def net_oracle(case, impl, stats=None):
     order (what the forwarder says is passed on as it is: deviation D6)."""
     from . import netgen, resolvergen as rg
     from . import tok
-    if impl.startswith("DRIVER-DIED"):
-        return ("no-completion", "the resolution did not complete (the driver died: hang, stack overflow or abort)")
+    if impl.startswith("DRIVER-DIED rc"):
+        return ("no-completion", "the resolution did not complete (the driver died on this case: hang, stack overflow or abort; %s)" % impl)
     if impl == "Panic":
         return ("panic", "the resolver panicked")
     try:
